@@ -284,6 +284,34 @@ def annotate_fn(text, ann, clauses, fname):
                     ins.append((pos, 0, w + '\n'))
                 else:
                     ins.append((pos + len(needle), 0, '\n' + w + '\n'))
+    # after_stmt: (needle, occurrence, proof): insert after the statement that starts with `needle`
+    # (end = the first ';' at parenthesis/brace depth 0 after the needle) -- independent of indentation
+    for needle, occ, proof in (ann.get('after_stmt') or []):
+        pos = -1
+        start = ob
+        for _ in range(occ + 1):
+            pos = text.find(needle, start)
+            if pos < 0:
+                raise LostAnchor('%s: statement anchor %r #%d not found' % (fname, needle, occ))
+            start = pos + 1
+        d = 0
+        end = None
+        for j in range(pos, cb):
+            ch = m[j]
+            if ch in '([{':
+                d += 1
+            elif ch in ')]}':
+                d -= 1
+                if d < 0:
+                    break
+            elif ch == ';' and d == 0:
+                end = j + 1
+                break
+        if end is None:
+            raise LostAnchor('%s: statement anchor %r #%d has no end' % (fname, needle, occ))
+        w = W('hint', proof)
+        if w:
+            ins.append((end, 0, '\n' + w + '\n'))
     if ann.get('at_end'):
         ends = ann['at_end'] if isinstance(ann['at_end'], (list, tuple)) else [ann['at_end']]
         for raw in reversed(ends):     # equal positions are emitted in reverse insertion order
